@@ -32,15 +32,36 @@ import c13_sweep as sweep
 import c13_corpus
 from common import cz, cbool, clist, cpair, cn
 
-THEOREMS = ['C13_dedup_merges_equal', 'C13_dedup_merges_tested',
-            'C13_desc_eqb_sound', 'C13_dedup_survivor_smallest',
-            'C13_dedup_survivor_minimal', 'C13_dedup_covers',
-            'C13_dedup_idempotent', 'C13_renumber_den', 'C13_dedup_den',
-            'C13_dedup_helpers_survive', 'C13_dedup_all_empty_refuted',
-            'C13_inline_den', 'C13_inline_score_den', 'C13_inline_complete',
-            'C13_inline_model', 'C13_inline_total',
-            'C13_acyclic_unique_model', 'C13_fill_geometry_den',
-            'C13_fill_flags_lockstep', 'C13_options_same_geometry']
+THEOREMS = [
+    'C13_dedup_merges_equal',
+    'C13_dedup_merges_tested',
+    'C13_desc_eqb_sound',
+    'C13_hash_consistent',
+    'C13_dedup_survivor_smallest',
+    'C13_dedup_survivor_minimal',
+    'C13_dedup_covers',
+    'C13_dedup_idempotent',
+    'C13_renumber_den',
+    'C13_dedup_den',
+    'C13_dedup_den_any_scalar',
+    'C13_dedup_helpers_survive',
+    'C13_dedup_writer_finds_surfaces',
+    'C13_remove_empty_sound',
+    'C13_finish_sound',
+    'C13_written_same_dedup',
+    'C13_vden_model',
+    'C13_dedup_all_empty_refuted',
+    'C13_inline_den',
+    'C13_inline_score_den',
+    'C13_find_occurrences_sound',
+    'C13_inline_complete',
+    'C13_inline_model',
+    'C13_inline_total',
+    'C13_acyclic_unique_model',
+    'C13_fill_geometry_den',
+    'C13_fill_flags_lockstep',
+    'C13_options_same_geometry',
+]
 TRUSTED = [
     'hand-written model coq/C13/Model.v (modelled, tied by execution only)',
     'Python dict lookup by hash then ==: modelled as "first stored key equal '
@@ -245,6 +266,19 @@ def tie_eq(res, rng, n):
             laws.append('equal surfaces hash differently')
         if (sb in {sa: 1}) != eq:
             laws.append('dict lookup disagrees with ==')
+        # __hash__ is the tuple hash of exactly the compared components
+        # (Model.desc_hash with Python's own element and tuple hashes)
+        for d, surf in ((a, sa), (b, sb)):
+            comps = (surf.type_surface, tuple(d['params']))
+            if d['trans'] is not None:
+                comps += (tuple(float(v) for v in d['trans'][0]),
+                          tuple(float(v) for v in d['trans'][1]))
+            if hash(surf) != hash(comps):
+                laws.append('__hash__ is not the tuple hash of (type, params'
+                            '[, translation, matrix])')
+        for x, y in zip(a['params'], b['params']):
+            if x == y and hash(x) != hash(y):
+                laws.append(f'element hash does not respect ==: {x!r} {y!r}')
         # independent reading: same type, same values
         if eq != (tie.desc_key(a) == tie.desc_key(b)):
             res.violation('impl-violation',
